@@ -43,11 +43,11 @@ Lemma not_fuel_sing : eSingleton <> eFuel. Proof. nf. Qed.
 Lemma sing_not_fuel k : is_singleton_err k = true -> k <> eFuel.
 Proof. intros H ->. vm_compute in H. discriminate. Qed.
 
-Lemma obj_len_not_fuel h o k : obj_len h o = Err k -> k <> eFuel.
+Lemma obj_len_not_fuel h o k : obj_length h o = Err k -> k <> eFuel.
 Proof.
-  unfold obj_len. destruct (hget h o) as [ob|]; [|intros H; injection H as <-; nf].
+  unfold obj_length. destruct (hget h o) as [ob|]; [|intros H; injection H as <-; nf].
   destruct (o_data ob) as [l| | | |]; try (intros H; injection H as <-; nf).
-  destruct (l <? 0)%Z; [intros H; injection H as <-; nf | discriminate].
+  discriminate.
 Qed.
 
 Lemma create_not_fuel ct st c auto name k0 extra children d k e :
@@ -79,15 +79,15 @@ Proof.
   1: specialize (R1 (or_introl eq_refl)).
   2: (assert (Hq : Some l <> None) by discriminate; specialize (R1 (or_intror Hq))).
   3: specialize (R1 (or_introl eq_refl)).
-  - destruct (Z.eqb l 0); [discriminate|]. pose proof (R1 st) as R. destruct (rec st (cname_of nm) None) as [s1 r]. cbn [snd] in R.
+  - pose proof (R1 st) as R. destruct (rec st (cname_of nm) None) as [s1 r]. cbn [snd] in R.
     destruct r as [o b|k' e].
-    + destruct (obj_len (heap s1) o) eqn:EL; cbn [snd].
+    + destruct (obj_length (heap s1) o) eqn:EL; cbn [snd].
       * destruct (Z.eqb a l); [discriminate|]. intros H. injection H as <-. apply not_fuel_sing.
       * intros H. injection H as <-. eapply obj_len_not_fuel; eauto.
     + destruct (is_singleton_err k'); cbn [snd]; [discriminate|]. intros H. injection H as <-. eapply R; eauto.
-  - destruct (Z.eqb l 0); [discriminate|]. pose proof (R1 st) as R. destruct (rec st (cname_of nm) None) as [s1 r]. cbn [snd] in R.
+  - pose proof (R1 st) as R. destruct (rec st (cname_of nm) None) as [s1 r]. cbn [snd] in R.
     destruct r as [o b|k' e].
-    + destruct (obj_len (heap s1) o) eqn:EL; cbn [snd]; [|intros H; injection H as <-; eapply obj_len_not_fuel; eauto].
+    + destruct (obj_length (heap s1) o) eqn:EL; cbn [snd]; [|intros H; injection H as <-; eapply obj_len_not_fuel; eauto].
       pose proof (HR (collect s1) (Some l)) as R2. destruct (rec (collect s1) (cname_of nm) (Some l)) as [s2 r2]. cbn [snd] in R2.
       destruct r2 as [o2 b2|k2 e2]; cbn [snd]; [discriminate|].
       destruct (is_singleton_err k2); cbn [snd].
@@ -95,7 +95,7 @@ Proof.
       * intros H. injection H as <-. apply (R2 k2 e2 eq_refl). right. split; [reflexivity | split; discriminate].
     + destruct (is_singleton_err k'); cbn [snd]; [discriminate|]. intros H. injection H as <-. eapply R; eauto.
   - pose proof (R1 st) as R. destruct (rec st (cname_of nm) None) as [s1 r]. cbn [snd] in R. destruct r as [o b|k' e].
-    + destruct (obj_len (heap s1) o) eqn:EL; cbn [snd]; [discriminate|]. intros H. injection H as <-. eapply obj_len_not_fuel; eauto.
+    + destruct (obj_length (heap s1) o) eqn:EL; cbn [snd]; [discriminate|]. intros H. injection H as <-. eapply obj_len_not_fuel; eauto.
     + destruct (is_singleton_err k'); cbn [snd]; [discriminate|]. intros H. injection H as <-. eapply R; eauto.
 Qed.
 
